@@ -1909,6 +1909,7 @@ theorem run_satisfies_spec (inp : Input) (ch : Choices)
   subst fE1
   have hrun : run inp ch =
       { chain := runChain inp ch blockTxs, times := (List.range inp.count).map (blockTime inp.cadence),
+        chainAfter := runChain inp ch blockTxs,
         subs := (List.range inp.nsubs).map (runSub inp ch (runChain inp ch blockTxs)),
         accepted := accepted, results := runResults (runChain inp ch blockTxs) tl } := by
     simp only [run]
@@ -1975,10 +1976,11 @@ theorem run_satisfies_spec (inp : Input) (ch : Choices)
       (hmid.imp id (fun h => h s))
   unfold spec
   simp only [hzs, Bool.and_eq_true, List.all_eq_true, List.mem_map, List.mem_range]
-  refine ⟨⟨⟨⟨⟨?_, ?_⟩, ?_⟩, ?_⟩, ?_⟩, ?_⟩
+  refine ⟨⟨⟨⟨⟨⟨?_, ?_⟩, ?_⟩, ?_⟩, ?_⟩, ?_⟩, ?_⟩
   · -- chain
     have hl : chain.length = inp.count := by rw [hmk]; simp
     simp [chainOk, paramsOf, hnum, hl]
+  · simp
   · rintro _ ⟨s, _, rfl⟩
     exact (hsub s).1
   · rintro _ ⟨s, _, rfl⟩
@@ -2102,6 +2104,39 @@ example :
   · intro s ord h; simp [ch] at h
   · intro s ord h; simp [ch] at h
   · intro s ord h; simp [ch] at h
+
+/-! ### un-timed `Transmit` ∥ `Load` -/
+
+theorem nodupB_iff {α} [BEq α] [LawfulBEq α] (l : List α) : nodupB l = true ↔ l.Nodup := by
+  induction l with
+  | nil => simp [nodupB]
+  | cons x xs ih => simp [nodupB, ih, List.nodup_cons]
+
+private theorem runOps_final_load_queue (ops : List TLOp) (tl : TL) :
+    (TL.runOps tl (ops ++ [TLOp.load])).1.queue = [] := by
+  induction ops generalizing tl with
+  | nil => simp [TL.runOps, TL.load]
+  | cons op ops ih =>
+    cases op with
+    | load => simp only [List.cons_append, TL.runOps]; exact ih _
+    | submit t => simp only [List.cons_append, TL.runOps]; exact ih _
+
+/-- whatever the interleaving of `Transmit` calls and block building: once a block is built after
+    the last call, nothing is left in the queue — every accepted call is in exactly one block, the
+    blocks together are exactly `Results()`, and no `(report, round)` is in them twice -/
+theorem all_mined_after_final_load (ops : List TLOp) :
+    let r := TL.runOps {} (ops ++ [TLOp.load])
+    r.1.queue = [] ∧ r.2.2.flatten = r.1.transmitted ∧
+    r.1.transmitted = acceptedOf (ops ++ [TLOp.load]) r.2.1 ∧ ((r.2.2.flatten).map keyOf).Nodup := by
+  have hq := runOps_final_load_queue ops {}
+  obtain ⟨h1, h2, h3, _⟩ := transmit_recorded_once (ops ++ [TLOp.load])
+  simp only at h1 h2 h3 ⊢
+  rw [hq, List.append_nil] at h3
+  exact ⟨hq, h3, h2, by rw [h3]; exact h1⟩
+
+example : stressReplay [(3, [⟨"node-1", 0, 0⟩, ⟨"node-0", 1, 1⟩]), (9, [⟨"node-2", 0, 2⟩])] =
+    (true, [[⟨"node-1", 0, 0⟩, ⟨"node-0", 1, 1⟩], [⟨"node-2", 0, 2⟩]],
+     [⟨⟨"node-1", 0, 0⟩, some 3⟩, ⟨⟨"node-2", 0, 2⟩, some 9⟩, ⟨⟨"node-0", 1, 1⟩, some 3⟩]) := by decide
 
 /-! ### tie to the source: the model's decisions are the expressions regenerated from the Go code
 
